@@ -1,4 +1,5 @@
 import Firefly.Proof.VmmRegion
+import Firefly.Proof.VmmMemUtil
 import Firefly.Proof.VmmBoot
 /-!
 # C04 — Page-table operations implement exactly the requested address translation
@@ -362,6 +363,41 @@ theorem pdt_init_refines {st : St} {A P : W} {ownA : Own} (g : Good st (A <<< 12
       ((code = 0 ∧ ∃ ownA', InitPost st st' A P ownA ownA') ∨
        (code = eAlloc ∧ st'.free = [] ∧ st'.cr3 = st.cr3)) :=
   pdtInit_full g hcr3 hfa hfo hpb hpn hpf hpa htf hz
+
+/-! ## `kernel.Memset` / `kernel.Memcopy` (mem_util.go) — inside the model, not assumed -/
+
+/-- **memset_fills.** `Memset` as written (`target[0] = value`, then doubling `copy` calls with a 64-bit
+index), for every memory, address, value and every size ≤ 2^63: it terminates; exactly the `size`
+bytes at `addr` become `value`; every other byte is unchanged; the loop body runs `it` times with
+`2^(it-1) < size ≤ 2^it` — ⌈log2 size⌉ doublings, at most 63.  (`size = 0`: nothing happens.) -/
+theorem memset_fills (mem : Firefly.MemUtil.Bytes) (addr : Nat) (v : Firefly.MemUtil.Byte) (size : BitVec 64)
+    (hs : size.toNat ≤ 2 ^ 63) :
+    ∃ mem' it, Firefly.MemUtil.memset mem addr v size = .done mem' it ∧
+      (∀ i, mem' i = if addr ≤ i ∧ i < addr + size.toNat then v else mem i) ∧
+      (size ≠ 0 → size.toNat ≤ 2 ^ it ∧ (it ≠ 0 → 2 ^ (it - 1) < size.toNat)) ∧ it ≤ 63 :=
+  Firefly.MemUtil.memset_fills_core mem addr v size hs
+
+/-- the domain bound is sharp: for `size = 2^63 + 1` the index wraps to 0 and the loop never ends -/
+theorem memset_needs_size_le_2_63 :
+    (match Firefly.MemUtil.memset (fun _ => 0) 0 0 (BitVec.ofNat 64 (2 ^ 63 + 1)) with
+      | .hang => true | .done _ _ => false) = true :=
+  Firefly.MemUtil.memset_hangs_witness
+
+/-- **memcopy_copies.** `Memcopy(src, dst, size)`: the `size` bytes at `dst` become the bytes that were at
+`src` (Go's `copy` reads the source first), every other byte is unchanged; `size = 0`: nothing. -/
+theorem memcopy_copies (mem : Firefly.MemUtil.Bytes) (src dst : Nat) (size : BitVec 64) (i : Nat) :
+    Firefly.MemUtil.memcopy mem src dst size i =
+      if dst ≤ i ∧ i < dst + size.toNat then mem (src + (i - dst)) else mem i :=
+  Firefly.MemUtil.memcopy_copies_core mem src dst size i
+
+/-- **clearTable_eq_memset.** The model's "clear frame `f`" step — what `map_refines`' "new tables are
+all-zero", `pdt_init_refines` and `reserve_zeroed_frame` rest on — *is* `Memset(f·4096, 0, 4096)` as
+written, applied to the byte view of the model's memory: it terminates after 12 doublings and the two
+memories agree on every byte. -/
+theorem clearTable_eq_memset (m : Mem) (f : Nat) :
+    ∃ mem' it, Firefly.MemUtil.memset (byteView m) (f * 4096) 0 4096#64 = .done mem' it ∧ it = 12 ∧
+      ∀ pa, mem' pa = byteView (m.setFrame f (fun _ => 0)) pa :=
+  Firefly.Vmm.clearTable_eq_memset m f
 
 /-- D13 (domain boundary): `SetFrame` does not mask the frame number: frame 2^40 spills into bit 52
 and the hardware frame field reads 0.  Frame numbers < 2^40 (`FrameOK`) are a hypothesis above. -/
